@@ -186,6 +186,34 @@ func (x *gen) kids(schemaKids []*sg.Node, depth int) []*D {
 						}
 					}
 				}
+				// several unique sets: every set distinct over the entries, but the values of one set are those another
+				// set has in the neighbouring entry (no violation: the sets are independent of each other)
+				if len(n.Uniques) >= 2 && g.Chance(1, 3, "uniqcross") {
+					pool := []string{"a", "b", "a·", "·b", "a·b", "·", "x"}
+					for i, e := range d.Kids {
+						for j, u := range n.Uniques {
+							for _, f := range strings.Fields(u) {
+								holder := e
+								parts := strings.Split(f, "/")
+								for _, pn := range parts[:len(parts)-1] {
+									next := find(holder.Kids, pn)
+									if next == nil {
+										next = &D{Name: pn}
+										holder.Kids = append(holder.Kids, next)
+									}
+									holder = next
+								}
+								ln := parts[len(parts)-1]
+								v := pool[(i+j)%len(pool)]
+								if leaf := find(holder.Kids, ln); leaf != nil {
+									leaf.Vals = []string{v}
+								} else {
+									holder.Kids = append(holder.Kids, &D{Name: ln, Vals: []string{v}})
+								}
+							}
+						}
+					}
+				}
 				if k > 0 || g.Chance(1, 3, "emptylist") {
 					out = append(out, d)
 				}
